@@ -430,15 +430,15 @@ def _consts(prop, mode, flags, ncase=1, fullopt=False, offset=0):
     return c
 
 
-def generate(ctx, prop, flags, total, fullopt, shards, invariants, label="gen"):
+def generate(ctx, prop, flags, total, fullopt, shards, invariants, label="gen", offset0=0, salt=0):
     """MODE="gen": TLC enumerates `total` cases over `shards` processes, checks `invariants` on SyncFn, exports the cases."""
     per = (total + shards - 1) // shards
 
     def one(k):
         wd = os.path.join(ctx.work, "%s-%d" % (label, k))
         out = os.path.join(wd, "cases.ndjson")
-        cfgt = tlc.cfg(_consts(prop, "gen", flags, per, fullopt, k * per), invariants=invariants, postcondition="Export", alias="DebugAlias")
-        r = tlc.run(SPEC, cfg_text=cfgt, workdir=wd, workers=1, seed=(ctx.seed + 7919 * k) % 10**6, env={"SYNC_OUT": out, "JAVA_TOOL_OPTIONS": JOPTS},
+        cfgt = tlc.cfg(_consts(prop, "gen", flags, per, fullopt, offset0 + k * per), invariants=invariants, postcondition="Export", alias="DebugAlias")
+        r = tlc.run(SPEC, cfg_text=cfgt, workdir=wd, workers=1, seed=(ctx.seed + 7919 * k + 104729 * salt) % 10**6, env={"SYNC_OUT": out, "JAVA_TOOL_OPTIONS": JOPTS},
                     coverage=False, allow_violation=False, heap="3g")
         with open(out) as f:
             cases = [ncase(json.loads(line)) for line in f]
@@ -863,12 +863,6 @@ def run_property(ctx, prop):
     # 1. the requirements hold on SyncFn with every deviation switched off (what the code should do)
     ideal = {d: False for d in DEVIATIONS}
     generate(ctx, prop, ideal, 400 if ctx.quick else 4000, False, min(4, shards), reqs + ["ExcusesOnlyWithDeviation"], label="ideal")
-    # 2. the conformant model: requirements hold except where a named deviation explains the failure; cases exported
-    cases = generate(ctx, prop, flags, ntot, full, shards, reqs + ["ExcusesOnlyWithDeviation"])
-    stats["predicted_violations"] = {}
-    for c in cases:
-        for n in c["pred"]["viol"]:
-            stats["predicted_violations"][n] = stats["predicted_violations"].get(n, 0) + 1
     # 3. the pure requirement on the conformant model: TLC's counterexample is replayed on the real code
     for req in EXCUSABLE[prop]:
         cx = model_counterexample(ctx, prop, flags, req)
@@ -885,16 +879,32 @@ def run_property(ctx, prop):
             ctx.spec_drift("TLC's counterexample to %s does not reproduce on the real code: %s" % (req, _describe(rec)))
     if prop == "C15":
         steps_check(ctx, prop, flags, nsteps)
-    # 4. spec -> code: every case on the real code, TLC judges the recorded executions
-    recs = execute_all(ctx, cases)
-    feats = {c["id"]: c["feat"] for c in cases}
-    for r in recs:
-        r["feat"] = feats[r["id"]]
-    ver = validate(ctx, prop, flags, recs)
-    judge(ctx, prop, flags, recs, ver, "generated", stats)
-    for r in recs[:3]:
-        ctx.sample({"source": "generated", "call": _describe(r), "options": {k: v for k, v in r["o"].items() if k not in ("nord", "kord", "sps")},
-                    "src": r["src"], "dst": r["dst"], "post": r["post"], "tlc": {k: ver[r["id"]][k] for k in ("why", "viol")}})
+    # 2 + 4. the conformant model (requirements hold except where a named deviation explains the failure) generates the cases;
+    #        spec -> code: every case is run on the real code and TLC judges the recorded executions.  In rounds, to bound memory.
+    stats["predicted_violations"] = {}
+    per_round = 2000 * shards
+    done = rnd_no = 0
+    while done < ntot:
+        n = min(per_round, ntot - done)
+        cases = generate(ctx, prop, flags, n, full, shards, reqs + ["ExcusesOnlyWithDeviation"], label="gen%d" % rnd_no, offset0=done, salt=rnd_no)
+        for c in cases:
+            for nm in c["pred"]["viol"]:
+                stats["predicted_violations"][nm] = stats["predicted_violations"].get(nm, 0) + 1
+        recs = execute_all(ctx, cases)
+        feats = {c["id"]: c["feat"] for c in cases}
+        del cases
+        for r in recs:
+            r["feat"] = feats[r["id"]]
+        ver = validate(ctx, prop, flags, recs, label="file%d" % rnd_no)
+        judge(ctx, prop, flags, recs, ver, "generated", stats)
+        if rnd_no == 0:
+            for r in recs[:3]:
+                ctx.sample({"source": "generated", "call": _describe(r), "options": {k: v for k, v in r["o"].items() if k not in ("nord", "kord", "sps")},
+                            "src": r["src"], "dst": r["dst"], "post": r["post"], "tlc": {k: ver[r["id"]][k] for k in ("why", "viol")}})
+        done += len(recs)
+        rnd_no += 1
+        del recs, ver
+    stats["generated_cases"] = done
     missing = [f for f in NEED[prop] if not stats.get("features", {}).get(f)]
     if missing:
         raise core.MachineryError("vacuous run: no generated case exercises %s" % missing)
